@@ -127,7 +127,7 @@ static enum DeviceStatusCode vcam_set(struct Camera* c, struct CameraProperties*
 {
     struct vm_dev* d = cam_of(c);
     logcall(d, VC_SET, 0); monitor(d, VC_SET);
-    if (VM.cam[d->idx].fail_set) return Device_Err;
+    if (VM.cam[d->idx].fail_set > 0) { VM.cam[d->idx].fail_set--; return Device_Err; } // rejects this many set calls, then accepts
     struct vcam_obj* o = (struct vcam_obj*)c;
     o->props = *p;
     return Device_Ok;
